@@ -14,50 +14,111 @@ KIND = {"qst": "state", "povmt": "povm", "qpt": "gate", "qmpt": "mprocess"}
 # ------------------------------------------------------------------------------------------------ testers
 
 
-def generic_states(d, K, seed):
-    """K generic tester states (pure for even k, mixed with the maximally mixed state for odd k)"""
-    out = []
-    for k in range(K):
-        U = R.generic_unitary(d, seed, salt=3 * k + 7)
-        psi = U[:, k % d]
-        rho = np.outer(psi, psi.conj())
-        if k % 2:
-            rho = 0.75 * rho + 0.25 * np.eye(d) / d
-        out.append(rho)
-    return out
+_SX = np.array([[0, 1], [1, 0]], dtype=np.complex128)
+_SY = np.array([[0, -1j], [1j, 0]], dtype=np.complex128)
+_SZ = np.array([[1, 0], [0, -1]], dtype=np.complex128)
+_I2 = np.eye(2, dtype=np.complex128)
 
 
-def tester_states_ref(d, name, seed):
-    if d == 2 and name in ("s4", "s5"):
-        st = A.states_ref(2, seed)
-        names = ["z0", "pure_generic", "pure_fourier", "mixed_generic"] + (["maxmixed"] if name == "s5" else [])
-        return [st[k] for k in names]
-    if name.startswith("g"):
-        return generic_states(d, int(name[1:]), seed)
+def _bloch(r, w=0.5):
+    """w (I + r.sigma): a state for w = 1/2, a POVM element for the right weights"""
+    return w * (_I2 + r[0] * _SX + r[1] * _SY + r[2] * _SZ)
+
+
+def _rot(mats, d, seed):
+    """conjugate everything by one generic unitary: a seed-dependent generic orientation with seed-independent conditioning"""
+    W = R.generic_unitary(d, seed, salt=5)
+    return [W @ m @ W.conj().T for m in mats]
+
+
+_S3 = 1 / math.sqrt(3)
+_TETRA = [(_S3, _S3, _S3), (_S3, -_S3, -_S3), (-_S3, _S3, -_S3), (-_S3, -_S3, _S3)]
+
+
+def _q1_povm(name):
+    c, s = math.cos, math.sin
+    if name == "px":
+        return [_bloch((1, 0, 0)), _bloch((-1, 0, 0))]
+    if name == "py":
+        return [_bloch((0, 1, 0)), _bloch((0, -1, 0))]
+    if name == "uz":                                    # unsharp z measurement
+        return [_bloch((0, 0, 0.7)), _bloch((0, 0, -0.7))]
+    if name == "pd":
+        return [_bloch(_TETRA[0]), _bloch(tuple(-x for x in _TETRA[0]))]
+    if name == "trine_xz":
+        return [_bloch((s(2 * math.pi * k / 3), 0, c(2 * math.pi * k / 3)), 1 / 3) for k in range(3)]
+    if name == "trine_yz":                              # unsharp, rotated by 0.4 rad
+        return [_bloch((0, 0.8 * s(2 * math.pi * k / 3 + 0.4), 0.8 * c(2 * math.pi * k / 3 + 0.4)), 1 / 3) for k in range(3)]
+    if name == "zero3":                                 # one exactly-zero element
+        n = (1 / math.sqrt(2), 1 / math.sqrt(2), 0)
+        return [_bloch(n), np.zeros((2, 2), dtype=np.complex128), _bloch(tuple(-x for x in n))]
+    if name == "tetra":
+        return [_bloch(t, 0.25) for t in _TETRA]
+    if name == "tetra_u":                               # unsharp inverted tetrahedron
+        return [_bloch(tuple(-0.7 * x for x in t), 0.25) for t in _TETRA]
     raise ValueError(name)
 
 
 Q1_POVM_SETS = {
-    "m2": ["comp_m2", "projective_m2", "generic_m2"],
-    "m2x4": ["comp_m2", "projective_m2", "generic_m2", "rank1_m2"],
-    "m3": ["generic_m3", "rank1_m3"],
-    "m3x3": ["generic_m3", "rank1_m3", "withzero_m3"],
-    "m4": ["rank1_m4"],
-    "m4x2": ["generic_m4", "rank1_m4"],
-    "mixed234": ["comp_m2", "generic_m3", "rank1_m4"],
-    "mixed23": ["generic_m2", "generic_m3"],
-    "mixed42": ["rank1_m4", "projective_m2"],
+    "m2": ["px", "py", "uz"],
+    "m2x4": ["px", "py", "uz", "pd"],
+    "m3": ["trine_xz", "trine_yz"],
+    "m3x3": ["trine_xz", "trine_yz", "zero3"],
+    "m4": ["tetra"],
+    "m4x2": ["tetra_u", "tetra"],
+    "mixed234": ["py", "trine_xz", "tetra"],
+    "mixed23": ["px", "trine_yz"],
+    "mixed42": ["tetra", "px"],
 }
+Q1_POVM_M = {"px": 2, "py": 2, "uz": 2, "pd": 2, "trine_xz": 3, "trine_yz": 3, "zero3": 3, "tetra": 4, "tetra_u": 4}
+
+
+def tester_states_ref(d, name, seed):
+    """informationally complete tester states in a seed-dependent generic orientation"""
+    if d == 2 and name in ("s4", "s5"):
+        sts = [_bloch((0, 0, 1)), _bloch((0, 0, -1)), _bloch((1, 0, 0)), _bloch((0, 0.75, 0))]
+        if name == "s5":
+            sts.append(_bloch((-0.6, -0.6, 0.2)))
+        return _rot(sts, 2, seed)
+    if name in ("g9", "g10") and d == 3:
+        sts = []
+        for i in range(3):
+            e = np.zeros(3, dtype=np.complex128)
+            e[i] = 1
+            sts.append(np.outer(e, e.conj()))
+        for i in range(3):
+            for j in range(i + 1, 3):
+                for ph in (1, 1j):
+                    v = np.zeros(3, dtype=np.complex128)
+                    v[i], v[j] = 1 / math.sqrt(2), ph / math.sqrt(2)
+                    sts.append(np.outer(v, v.conj()))
+        sts[4] = 0.75 * sts[4] + 0.25 * np.eye(3) / 3      # one mixed tester
+        if name == "g10":
+            v = np.array([1, 1, 1], dtype=np.complex128) / math.sqrt(3)
+            sts.append(np.outer(v, v.conj()))
+        return _rot(sts, 3, seed)
+    raise ValueError(name)
+
+
+def _herm_coords(Mx):
+    """real coordinates of a Hermitian matrix in an orthonormal Hermitian basis built here"""
+    d = Mx.shape[0]
+    return np.array([np.trace(b.conj().T @ Mx).real for b in R.hermitian_basis_ref(d)])
 
 
 def tester_povms_ref(d, name, seed):
-    """name: a Q1 set name, or 'g<m>x<K>' = K generic m-outcome POVMs"""
+    """name: a Q1 set name (fixed frames, generic orientation), or 'g<m>x<K>' = K generic m-outcome POVMs (the first salt
+    offset for which the stacked elements are well conditioned: a deterministic function of the seed)"""
     if d == 2 and name in Q1_POVM_SETS:
-        pv = A.povms_ref(2, seed)
-        return [pv[k] for k in Q1_POVM_SETS[name]]
+        return [_rot(_q1_povm(k), 2, seed) for k in Q1_POVM_SETS[name]]
     if name.startswith("g"):
-        m, K = name[1:].split("x")
-        return [A.povm_generic(d, int(m), seed, salt=10 * k + int(m)) for k in range(int(K))]
+        m, K = (int(x) for x in name[1:].split("x"))
+        for t in range(40):
+            povms = [A.povm_generic(d, m, seed, salt=10 * k + m + 7 * t) for k in range(K)]
+            stack = np.array([_herm_coords(E) for P in povms for E in P])
+            if np.linalg.matrix_rank(stack) == d * d and np.linalg.cond(stack) <= 40:
+                return povms
+        raise AssertionError("harness: no well-conditioned generic tester set %s for seed %r" % (name, seed))
     raise ValueError(name)
 
 
